@@ -98,13 +98,16 @@ structure Built where
   qclass : Nat
   deriving Repr, DecidableEq
 
+/-- the header every query builder fills in: `memset(&h, 0, ..); h.id = qid; h.rd = 1; h.qdcount = 1; h.arcount = (edns_sz > 0 ? 1 : 0)` -/
+def queryHeader (qid ar : Nat) : Header :=
+  { id := qid % 65536, qr := 0, opcode := 0, aa := 0, tc := 0, rd := 1, ra := 0, rcode := 0,
+    qdcount := 1, ancount := 0, nscount := 0, arcount := ar }
+
 /-- rfc1035BuildAQuery / rfc1035BuildPTRQuery / rfc3596BuildHostQuery: header (id, RD, one question, ARCOUNT = 1 with
 EDNS), question, optional OPT record. `edns` = `edns_sz` resp. `Config.dns.packet_max`. -/
 def buildQuery (sz : Nat) (host : Bytes) (qid qtype : Nat) (edns : Int) : R Built :=
-  let h : Header := { id := qid % 65536, qr := 0, opcode := 0, aa := 0, tc := 0, rd := 1, ra := 0, rcode := 0,
-                      qdcount := 1, ancount := 0, nscount := 0, arcount := if edns > 0 then 1 else 0 }
   let qt := qtype % 65536
-  match headerPack sz h with
+  match headerPack sz (queryHeader qid (if edns > 0 then 1 else 0)) with
   | .ok hb =>
     match questionPack (sz - hb.length) host qt classIN with
     | .ok qb =>
